@@ -6,6 +6,7 @@ import (
 	"io"
 	"strings"
 
+	schema "github.com/jsightapi/jsight-schema-core"
 	"github.com/jsightapi/jsight-schema-core/formats/json"
 	"github.com/jsightapi/jsight-schema-core/kit"
 )
@@ -70,6 +71,35 @@ func init() {
 		} else {
 			N = fmt.Sprint(n)
 		}
-		return "L=" + L + " C=" + C + " N=" + N
+		// the verdict does not depend on what the same Document was asked before: Check() after the lexemes were read
+		// (to the end or to the error), after Len(), and a second time
+		again := ""
+		for name, before := range map[string]func(x schema.Document){
+			"lexemes": func(x schema.Document) {
+				for {
+					if _, err := x.NextLexeme(); err != nil {
+						return
+					}
+				}
+			},
+			"one-lexeme": func(x schema.Document) { _, _ = x.NextLexeme() },
+			"len":        func(x schema.Document) { _, _ = x.Len() },
+			"check":      func(x schema.Document) { _ = x.Check() },
+		} {
+			x := json.New("doc", append([]byte(nil), b...), opts...)
+			before(x)
+			c := "ok"
+			if err := x.Check(); err != nil {
+				c = errAt(err)
+			}
+			if c != C && (again == "" || name < again) {
+				again = name + ":" + c
+			}
+		}
+		out := "L=" + L + " C=" + C + " N=" + N
+		if again != "" {
+			out += " AGAIN=" + again
+		}
+		return out
 	}
 }
